@@ -422,6 +422,16 @@ func c05ArityCases(thorough bool) []*c05Case {
 			out = append(out, c05ArityCase([]string{"int"}, ir, []string{"int"}, mr))
 		}
 	}
+	// the same sequence of types, split between parameters and results at different points
+	for _, seq := range [][]string{{"int"}, {"int", "string"}, {"[]byte", "int", "error"}} {
+		for k := 0; k <= len(seq); k++ {
+			for j := 0; j <= len(seq); j++ {
+				if j != k {
+					out = append(out, c05ArityCase(seq[:k], seq[k:], seq[:j], seq[j:]))
+				}
+			}
+		}
+	}
 	return out
 }
 
